@@ -99,13 +99,17 @@ def main(argv=None) -> int:
             f"buckets={len(acc.failures)} wall={wall:.1f}s"
         )
         if violations:
-            for v in violations:
+            for i, v in enumerate(violations):
                 path = harness.write_replay(prop, v)
+                if i >= 8:
+                    continue
                 print(
                     f"  bucket={v['bucket']} count={acc.fail_counts.get(v['bucket'], 1)} "
                     f"case={harness.jkey(v['case'])[:400]} expected={str(v['expected'])[:200]} got={str(v['got'])[:200]}"
                 )
                 print(f"VIOLATION property={prop} replay={path}")
+            if len(violations) > 8:
+                print(f"  ... {len(violations) - 8} more buckets, replay files written under /verif/replays")
             return 1
         return 0
     except HarnessError as e:
